@@ -108,6 +108,10 @@ func (c *Ctx) rulesR3resolver() {
 	c.rule("C02.nolog", "what the resolver returns does not depend on logging: in every resolver function (TargetStates, parseAdd, parseRequire and its closure, getMissingRequires, stateBlockedBy, sortRequire) an append that feeds the returned list is reached equally with step logging on and off — for every branch on isLogSteps()/IsSteps()/log level, both outcomes agree on whether that append can be bypassed. (Steps are enabled by the debugger telemetry: a missing Require that is only reported with logging off would make relations hold in production and fail under am-dbg, or the reverse)")
 	c.rule("C02.idx", "DefaultRelationsResolver.TargetStates stores its index parameter into rr.Index unconditionally before using it: VerifyStates reorders the machine's state names without telling the resolver, and Mutation.Called is in the machine's index space")
 	names := []string{"TargetStates", "parseAdd", "parseRequire", "getMissingRequires", "stateBlockedBy", "sortRequire"}
+	needNL := 3
+	if c.fnOpt(pm+":DefaultRelationsResolver.stateBlockedBy") == nil {
+		needNL-- // inlined: its list only controls the filter's verdict
+	}
 	n := 0
 	seenNL := map[*ssa.Function]bool{}
 	for _, nm := range names {
@@ -256,7 +260,7 @@ func (c *Ctx) rulesR3resolver() {
 			}
 		}
 	}
-	if n < 3 {
+	if n < needNL {
 		c.undecided(fmt.Sprintf("C02.nolog: only %d result appends found in the resolver", n))
 	}
 	// C02.idx
